@@ -93,6 +93,16 @@ def mkproj(base: str, nroots: Any) -> List[str]:
         (p / 'a.py').write_text('from .z import f\nfrom typing import Final\nX: Final = {1, 2, 3}\nY: Final = frozenset(["a", "b"])\nZ: Final = {"k": {"x", "y"}}\ndef g(a={1, 2}, b=frozenset()): pass\n')
         (p / 'Shapes.py').write_text('class Shape:\n    "upper module"\n')
         (p / 'shapes.py').write_text('class Shape:\n    "lower module"\nclass Square(Shape): pass\n')
+        # a sub-package that re-exports, through a star import, several names of a module without __all__ (the order of the moves reaches the
+        # inventory and the search files); files that share their base name with a module (stub, data file, C source, directory of the same name)
+        (p / 'star').mkdir()
+        (p / 'star' / '__init__.py').write_text('from ._impl import *\n__all__ = ["alpha_fn", "Beta", "gamma_fn", "Delta", "epsilon"]\n')
+        (p / 'star' / '_impl.py').write_text('def alpha_fn(): "a"\nclass Beta:\n    "b"\ndef gamma_fn(): "g"\nclass Delta(Beta):\n    "d"\nepsilon = 1\n"e"\ndef _private(): pass\n')
+        (p / 'z.pyi').write_text('def f() -> None: ...\n')
+        (p / 'a.json').write_text('{}')
+        (p / 'shapes.c').write_text('/* c */')
+        (p / 'z').mkdir()
+        (p / 'z' / 'data.txt').write_text('not a package')
         (p / 'sub' / '__init__.py').write_text('')
         (p / 'sub' / 'm.py').write_text(f'from zope.interface import Interface, implementer\nclass IA(Interface): pass\nclass IB(Interface): pass\n@implementer(IA, IB)\nclass S:\n    x = y = 1\n')
         (p / 'sub' / 'n.py').write_text('from .m import S\nclass T(S): pass\nclass U(S): pass\n')
